@@ -34,6 +34,11 @@ func (ks KeySet) Foreach(fn func(Key)) {
 }
 
 func (ks KeySet) Exists(k Key) bool {
+	if ks.head == nil {
+		// Empty key set (see Foreach). Without this an empty
+		// (non-nil) key would compare equal to the missing head.
+		return false
+	}
 	if ks.head.Equal(k) {
 		return true
 	}
